@@ -505,3 +505,280 @@ Proof.
   do 6 (destruct k as [|k]; [inversion Hk; subst; vm_compute; discriminate|]).
   destruct k; discriminate.
 Qed.
+
+(* ------------------------------------------------------------------ *)
+(* F. status words                                                      *)
+(* ------------------------------------------------------------------ *)
+Local Open Scope Z_scope.
+
+Definition decode_spec_of (s : Z) : Z * Z :=
+  if s mod 128 =? 0 then ((s / 256) mod 256, 0)
+  else if s mod 128 <=? 126 then (0, s mod 128)
+  else (0, 0).
+
+Definition macros_ok (s : Z) : bool :=
+  Bool.eqb (WIFEXITED s) (s mod 128 =? 0) &&
+  Bool.eqb (WIFSIGNALED s) ((1 <=? s mod 128) && (s mod 128 <=? 126)) &&
+  (WEXITSTATUS s =? (s / 256) mod 256) &&
+  (WTERMSIG s =? s mod 128) &&
+  (fst (decode s) =? fst (decode_spec_of s)) && (snd (decode s) =? snd (decode_spec_of s)).
+
+Definition words16 : list Z := map Z.of_nat (seq 0 (256 * 256)).
+
+Lemma words16_all s : 0 <= s < 65536 -> In s words16.
+Proof.
+  intros H. unfold words16. apply in_map_iff. exists (Z.to_nat s). split; [lia|].
+  apply in_seq. lia.
+Qed.
+
+Lemma macros_sweep : forallb macros_ok words16 = true.
+Proof. vm_compute. reflexivity. Qed.
+
+Lemma macros_ok_all s : 0 <= s < 65536 -> macros_ok s = true.
+Proof.
+  intros H. pose proof macros_sweep as S. rewrite forallb_forall in S.
+  apply S. apply words16_all. auto.
+Qed.
+
+Lemma status_macros s : 0 <= s < 65536 ->
+  WIFEXITED s = (s mod 128 =? 0) /\
+  WIFSIGNALED s = ((1 <=? s mod 128) && (s mod 128 <=? 126)) /\
+  WEXITSTATUS s = (s / 256) mod 256 /\
+  WTERMSIG s = s mod 128.
+Proof.
+  intros H. pose proof (macros_ok_all s H) as M. unfold macros_ok in M.
+  repeat (apply andb_true_iff in M as [M ?]).
+  apply Bool.eqb_prop in M. apply Bool.eqb_prop in H4.
+  apply Z.eqb_eq in H3. apply Z.eqb_eq in H2. auto.
+Qed.
+
+Lemma decode_spec s : 0 <= s < 65536 -> decode s = decode_spec_of s.
+Proof.
+  intros H. pose proof (macros_ok_all s H) as M. unfold macros_ok in M.
+  repeat (apply andb_true_iff in M as [M ?]).
+  apply Z.eqb_eq in H0. apply Z.eqb_eq in H1.
+  destruct (decode s), (decode_spec_of s). simpl in *. congruence.
+Qed.
+
+(* a normal exit with code c, a death by signal g (with or without core) *)
+Lemma decode_exit c : 0 <= c < 256 -> decode (256 * c) = (c, 0).
+Proof.
+  intros H. rewrite decode_spec by lia. unfold decode_spec_of.
+  replace ((256 * c) mod 128) with 0 by lia. simpl.
+  f_equal. lia.
+Qed.
+
+Lemma decode_signal g core : 1 <= g <= 126 -> 0 <= core <= 1 ->
+  decode (g + 128 * core) = (0, g).
+Proof.
+  intros H Hc. rewrite decode_spec by lia. unfold decode_spec_of.
+  replace ((g + 128 * core) mod 128) with g by lia.
+  destruct (Z.eqb_spec g 0); [lia|]. destruct (Z.leb_spec g 126); [reflexivity|lia].
+Qed.
+
+Lemma decode_range s : 0 <= s < 65536 ->
+  0 <= fst (decode s) < 256 /\ 0 <= snd (decode s) < 127 /\
+  (fst (decode s) = 0 \/ snd (decode s) = 0).
+Proof.
+  intros H. rewrite decode_spec by auto. unfold decode_spec_of.
+  destruct (Z.eqb_spec (s mod 128) 0); simpl; [lia|].
+  destruct (Z.leb_spec (s mod 128) 126); simpl; lia.
+Qed.
+Local Close Scope Z_scope.
+
+(* ------------------------------------------------------------------ *)
+(* G. uv__wait_children                                                 *)
+(* ------------------------------------------------------------------ *)
+Fixpoint reaps (evs : list event) : list (nat * Z * bool) :=
+  match evs with
+  | [] => []
+  | EReap h st cb :: r => (h, st, cb) :: reaps r
+  | _ :: r => reaps r
+  end.
+
+Fixpoint exits (evs : list event) : list (nat * Z * Z) :=
+  match evs with
+  | [] => []
+  | EExit h es ts :: r => (h, es, ts) :: exits r
+  | _ :: r => exits r
+  end.
+
+(* the callbacks that the reaped children are owed *)
+Definition owed1 (x : nat * Z * bool) : list (nat * Z * Z) :=
+  let '(h, st, cb) := x in
+  if cb then [(h, fst (decode st), snd (decode st))] else [].
+Definition owed (l : list (nat * Z * bool)) : list (nat * Z * Z) := flat_map owed1 l.
+
+Lemma reaps_app a b : reaps (a ++ b) = reaps a ++ reaps b.
+Proof. induction a as [|x a IH]; simpl; auto. destruct x; simpl; auto. f_equal. auto. Qed.
+Lemma exits_app a b : exits (a ++ b) = exits a ++ exits b.
+Proof. induction a as [|x a IH]; simpl; auto. destruct x; simpl; auto. f_equal. auto. Qed.
+Lemma owed_app a b : owed (a ++ b) = owed a ++ owed b.
+Proof. unfold owed. apply flat_map_app. Qed.
+
+Definition pend_key (x : proc * Z) : nat * Z * bool := (p_h (fst x), snd x, p_cb (fst x)).
+
+Lemma collect_spec : forall q o keep pend ev o' ab,
+  collect q o = (keep, pend, ev, o', ab) ->
+  reaps ev = map pend_key pend /\ exits ev = [] /\
+  Permutation.Permutation q (map fst pend ++ keep).
+Proof.
+  induction q as [|p rest IH]; intros o keep pend ev o' ab H; cbn [collect] in H.
+  - inversion H; subst. simpl. auto.
+  - destruct (wait_retry o) as [a o1].
+    destruct a as [a|].
+    + destruct a.
+      * destruct (collect rest o1) as [[[[k1 p1] e1] o2] ab1] eqn:E.
+        inversion H; subst. destruct (IH _ _ _ _ _ _ E) as (A & B & C).
+        simpl. repeat split; auto. apply Permutation.Permutation_cons_app. auto.
+      * destruct (collect rest o1) as [[[[k1 p1] e1] o2] ab1] eqn:E.
+        inversion H; subst. destruct (IH _ _ _ _ _ _ E) as (A & B & C).
+        simpl. repeat split; auto. apply Permutation.Permutation_cons_app. auto.
+      * destruct (collect rest o1) as [[[[k1 p1] e1] o2] ab1] eqn:E.
+        inversion H; subst. destruct (IH _ _ _ _ _ _ E) as (A & B & C).
+        simpl. repeat split; auto. apply Permutation.Permutation_cons_app. auto.
+      * destruct (collect rest o1) as [[[[k1 p1] e1] o2] ab1] eqn:E.
+        inversion H; subst. destruct (IH _ _ _ _ _ _ E) as (A & B & C).
+        simpl. repeat split; auto. f_equal. auto.
+      * inversion H; subst. simpl. auto.
+    + inversion H; subst. simpl. auto.
+Qed.
+
+Lemma deliver_spec pend :
+  reaps (deliver pend) = [] /\ exits (deliver pend) = owed (map pend_key pend).
+Proof.
+  induction pend as [|[p st] r [IH1 IH2]]; simpl; auto.
+  rewrite reaps_app, exits_app, IH1, IH2. unfold pend_key at 1. simpl.
+  destruct (p_cb p); simpl; auto.
+Qed.
+
+Lemma wait_children_spec s o s' ev :
+  wait_children s o = (s', ev) ->
+  (l_abort s' = false -> exits ev = owed (reaps ev)) /\
+  exists rest, owed (reaps ev) = exits ev ++ rest.
+Proof.
+  unfold wait_children. intros H.
+  destruct (collect (l_q s) o) as [[[[keep pend] e1] o1] ab] eqn:E.
+  destruct (collect_spec _ _ _ _ _ _ _ E) as (A & B & _).
+  destruct (deliver_spec pend) as (C & D).
+  destruct ab; inversion H; subst; clear H.
+  - split; [simpl; discriminate|]. rewrite B. simpl. eauto.
+  - assert (X : exits (e1 ++ deliver pend ++ match o1 with [] => [] | _ :: _ => [EExtra] end)
+                = owed (reaps (e1 ++ deliver pend ++ match o1 with [] => [] | _ :: _ => [EExtra] end))).
+    { rewrite !exits_app, !reaps_app, A, B, C, D. destruct o1; simpl; rewrite !app_nil_r; auto. }
+    split; [auto|]. exists []. rewrite app_nil_r. auto.
+Qed.
+
+Lemma step_abort s o : l_abort s = true -> step s o = (s, []).
+Proof. intros H. unfold step. rewrite H. reflexivity. Qed.
+
+Lemma run_abort ops : forall s, l_abort s = true -> run s ops = (s, []).
+Proof.
+  induction ops as [|o r IH]; intros s H; simpl; auto.
+  rewrite step_abort by auto. rewrite IH by auto. reflexivity.
+Qed.
+
+Lemma step_spec s o s' ev :
+  step s o = (s', ev) ->
+  (l_abort s' = false -> exits ev = owed (reaps ev)) /\
+  exists rest, owed (reaps ev) = exits ev ++ rest.
+Proof.
+  unfold step. destruct (l_abort s) eqn:Ea.
+  - intros H. inversion H; subst. simpl. split; eauto.
+  - destruct o as [h sp wo|ans|h].
+    + destruct (uv_spawn sp wo) as [r wo1]. intros H. inversion H; subst. simpl. split; eauto.
+    + apply wait_children_spec.
+    + intros H. inversion H; subst. simpl. split; eauto.
+Qed.
+
+(* every callback run so far belongs to a reaped child, in order, with the
+   decoded status; when the loop did not abort() every reaped child with a
+   callback has had it *)
+Theorem exit_once_true_status : forall ops s s' evs,
+  run s ops = (s', evs) ->
+  (l_abort s' = false -> exits evs = owed (reaps evs)) /\
+  exists rest, owed (reaps evs) = exits evs ++ rest.
+Proof.
+  induction ops as [|o r IH]; intros s s' evs H; cbn [run] in H.
+  - inversion H; subst. simpl. split; eauto.
+  - destruct (step s o) as [s1 e1] eqn:E1. destruct (run s1 r) as [s2 e2] eqn:E2.
+    inversion H; subst. clear H.
+    destruct (step_spec _ _ _ _ E1) as (A1 & r1 & B1).
+    destruct (IH _ _ _ E2) as (A2 & r2 & B2).
+    destruct (l_abort s1) eqn:Ea.
+    + rewrite run_abort in E2 by auto. inversion E2; subst. rewrite app_nil_r.
+      split; [congruence|eauto].
+    + rewrite exits_app, reaps_app, owed_app. rewrite A1 by auto. split.
+      * intros H. rewrite A2 by auto. reflexivity.
+      * exists r2. rewrite B2. rewrite <- A1 by auto. rewrite app_assoc. reflexivity.
+Qed.
+
+(* no handle is reaped twice when every uv_spawn uses a fresh handle *)
+Definition spawn_handle (o : op) : list nat :=
+  match o with OSpawn h _ _ => [h] | _ => [] end.
+Definition spawn_handles (ops : list op) : list nat := flat_map spawn_handle ops.
+Definition reaped_handles (evs : list event) : list nat := map (fun x => fst (fst x)) (reaps evs).
+
+Lemma NoDup_app_inv {A} (a b : list A) :
+  NoDup (a ++ b) -> NoDup a /\ NoDup b /\ forall x, In x a -> ~ In x b.
+Proof.
+  induction a as [|y a IH]; simpl; intros H.
+  - split; [constructor|]. split; auto.
+  - inversion H; subst. destruct (IH H3) as (A1 & A2 & A3).
+    split; [constructor; auto; intros X; apply H2; apply in_or_app; auto|].
+    split; auto. intros x [->|Hx]; auto. intros X. apply H2. apply in_or_app. auto.
+Qed.
+
+Lemma NoDup_app_intro {A} (a b : list A) :
+  NoDup a -> NoDup b -> (forall x, In x a -> ~ In x b) -> NoDup (a ++ b).
+Proof.
+  induction a as [|y a IH]; simpl; intros H1 H2 H3; auto.
+  inversion H1; subst. constructor.
+  - intros X. apply in_app_or in X as [X|X]; auto. apply (H3 y); auto.
+  - apply IH; auto.
+Qed.
+
+Lemma NoDup_map_filter {A B} (g : A -> B) (f : A -> bool) l :
+  NoDup (map g l) -> NoDup (map g (filter f l)).
+Proof.
+  induction l as [|x l IH]; simpl; intros H; auto.
+  inversion H; subst. destruct (f x); simpl; auto.
+  constructor; auto. intros X. apply H2. apply in_map_iff in X as (y & Y1 & Y2).
+  apply filter_In in Y2 as [Y2 _]. apply in_map_iff. eauto.
+Qed.
+
+Definition fresh_inv (q : list proc) (B : list nat) : Prop :=
+  NoDup (map p_h q) /\ NoDup B /\ forall h, In h (map p_h q) -> ~ In h B.
+
+Lemma reaped_once_gen : forall ops s s' evs,
+  fresh_inv (l_q s) (spawn_handles ops) ->
+  run s ops = (s', evs) ->
+  NoDup (reaped_handles evs) /\
+  forall h, In h (reaped_handles evs) -> In h (map p_h (l_q s)).
+Proof.
+  induction ops as [|o r IH]; intros s s' evs HI H; cbn [run] in H.
+  - inversion H; subst. simpl. split; [constructor|tauto].
+  - destruct (step s o) as [s1 e1] eqn:E1. destruct (run s1 r) as [s2 e2] eqn:E2.
+    inversion H; subst. clear H.
+    unfold reaped_handles. rewrite reaps_app, map_app.
+    destruct HI as (I1 & I2 & I3).
+    unfold step in E1. destruct (l_abort s) eqn:Ea.
+    { inversion E1; subst. rewrite run_abort in E2 by auto. inversion E2; subst.
+      simpl. split; [constructor|tauto]. }
+    destruct o as [h sp wo|ans|h].
+    + (* spawn *)
+      destruct (uv_spawn sp wo) as [res wo1]. inversion E1; subst. clear E1.
+      simpl in I2, I3. inversion I2; subst.
+      assert (Hq : ~ In h (map p_h (l_q s))) by (intros X; apply (I3 h X); left; auto).
+      simpl.
+      destruct (r_active res).
+      * destruct (IH _ _ _ ltac:(shelve) E2) as (A & B).
+        split; auto. intros x Hx. apply B in Hx. simpl in Hx.
+        rewrite map_app in Hx. apply in_app_or in Hx as [Hx|Hx]; auto.
+        simpl in Hx. destruct Hx as [<-|[]].
+        (* a handle spawned here cannot have been reaped before... it can be reaped later *)
+        shelve.
+      * destruct (IH _ _ _ ltac:(shelve) E2) as (A & B). split; auto.
+    + shelve.
+    + shelve.
+Abort.
